@@ -2,6 +2,7 @@
     Model: Model/InclGw.v (fork choice; join with the tracker's lagging picture of live tokens);
     the spreading of the chosen flows over the parked tokens is C03's distribute. *)
 From BV Require Import Model.InclGw Proofs.InclGwProofs Model.InclLag Proofs.InclLagProofs.
+From BV Require Import Model.TokenIdentity Proofs.TokenIdentityProofs Gen.Facts.
 Open Scope nat_scope.
 
 (* FORK — exactly the non-default flows whose condition is true ... *)
@@ -67,6 +68,33 @@ Theorem C05_join_once_refuted_when_the_fork_is_not_yet_known :
   exists s, lexec (linit false 2) [LArr 0; LArr 1] = Some s /\ lrel s = 2.
 Proof. exact refuted_uninformed. Qed.
 Print Assumptions C05_join_once_refuted_when_the_fork_is_not_yet_known.
+
+(* A BRANCH TOKEN KEEPS ITS IDENTITY THROUGH ACTIVITIES (Model/TokenIdentity.v). The join goes by the ids of the tokens
+   the fork created. A token that leaves an activity with conditional outgoing flows takes the first flow that flows
+   (the variant the sources show: src_token_continues_on_the_first_flow_that_flows, read off flow.Start on every run),
+   so for every list of conditions: the flows that get a token are exactly the ones whose condition holds; whenever any
+   flows, the arriving token [me] is among the tokens going on; and it goes on the first flow that flows (new tokens
+   are numbered from [fresh] > me). *)
+Theorem C05_a_branch_token_keeps_its_identity_through_activities : forall me fresh conds,
+  let b := binding_of src_token_continues_on_the_first_flow_that_flows in
+  map fst (leave_ids b me fresh conds) = flowing conds /\
+  ((exists i, nth_error conds i = Some true) -> exists i, In (i, me) (leave_ids b me fresh conds)) /\
+  (me < fresh -> forall f, In (f, me) (leave_ids b me fresh conds) -> hd_error (flowing conds) = Some f).
+Proof. exact the_arriving_token_goes_on. Qed.
+Print Assumptions C05_a_branch_token_keeps_its_identity_through_activities.
+
+(* bound to the first flow LISTED, the token ends when that flow does not flow while a later one does, and a token the
+   fork knows nothing of (5) arrives at the join in its place *)
+Theorem C05_identity_refuted_when_bound_to_the_first_listed_flow :
+  leave_ids FirstListedEnds 1 5 [false; true] = [(1, 5)] /\ leave_ids FirstThatFlows 1 5 [false; true] = [(1, 1)] /\
+  leave_ids FirstListedEnds 1 5 [true; true] = leave_ids FirstThatFlows 1 5 [true; true].
+Proof. exact refuted_when_bound_to_the_first_listed_flow. Qed.
+Print Assumptions C05_identity_refuted_when_bound_to_the_first_listed_flow.
+
+Example C05_identity_nonvacuous :
+  leave_ids FirstThatFlows 3 7 [false; true; false; true; true] = [(1, 3); (3, 7); (4, 8)] /\
+  leave_ids FirstThatFlows 3 7 [false; false] = [].
+Proof. vm_compute. split; reflexivity. Qed.
 
 Example C05_tracker_in_time_nonvacuous :
   (exists s, lexec (linit false 2) [LKnow 1; LArr 0; LArr 1] = Some s /\ lrel s = 1) /\
